@@ -120,19 +120,34 @@ def _sess_opts():
     return _SESS_OPTS
 
 
-def ort_run(model: onnx.ModelProto, feeds: Dict[str, np.ndarray]):
-    """-> ("ok", [arrays]) | ("load_error", msg) | ("run_error", msg)"""
+def ort_run(model: onnx.ModelProto, feeds: Dict[str, np.ndarray], limit: Optional[float] = None):
+    """-> ("ok", [arrays]) | ("load_error", msg) | ("run_error", msg) | ("terminated", msg)
+    With ``limit`` the run is cancelled through RunOptions.terminate after that many seconds."""
     import onnxruntime as ort
     try:
         sess = ort.InferenceSession(model.SerializeToString(), _sess_opts(),
                                     providers=["CPUExecutionProvider"])
     except Exception as e:  # noqa: BLE001
         return "load_error", str(e)[:500]
+    ro = None
+    timer = None
+    if limit is not None:
+        import threading
+        ro = ort.RunOptions()
+        timer = threading.Timer(limit, lambda: setattr(ro, "terminate", True))
+        timer.daemon = True
+        timer.start()
     try:
         names = {i.name for i in sess.get_inputs()}
-        outs = sess.run(None, {k: v for k, v in feeds.items() if k in names})
+        fd = {k: v for k, v in feeds.items() if k in names}
+        outs = sess.run(None, fd, run_options=ro) if ro is not None else sess.run(None, fd)
     except Exception as e:  # noqa: BLE001
+        if ro is not None and ro.terminate:
+            return "terminated", f"cancelled after {limit}s"
         return "run_error", str(e)[:500]
+    finally:
+        if timer is not None:
+            timer.cancel()
     return "ok", outs
 
 
